@@ -52,6 +52,21 @@ CHECKS = {
     "C15": ("4/C15", "direct-call monitor on the public ToMysqlValue::to_mysql_bin for every (Rust integer type, column, signedness, value); outcome classes exact / Err / loud panic; Miri pass",
             "12 source types x 6 column types x 2 signedness; values exhaustive for 8/16-bit types, bounds/powers of two +-1/random for wider; accepted writes are decoded by wire width and signedness and must be exact; acceptance is mandatory when the column's range contains the fixed-width type's range (pointer-sized: the value); a sample goes through real rows.",
             "an assert-panic is a loud refusal (allowed where acceptance is not mandatory); INT24's obligation range is 24 bits, exactness is judged on the 4 bytes sent"),
+    "C04": ("4/C04", "byte-level monitor: reference packet reader over the complete raw output, reassembly, byte comparison with the reference encoding of the big message; split-rule check; ASan pass",
+            "Rows whose encoded size is k*(2^24-1)+d (quick k=1, d in -5..2 and +300; thorough k in {1,2}, d in -8..8) assembled as one cell, 1 MiB cells, small-then-giant (boundary inside a length prefix) and giant-then-small, text and binary, write limits inf/65536; a >16 MiB column definition (thorough); plus thousands of ordinary conversations with write limits inf/65536/7/2/1.",
+            "wire.rs packet reader and lenenc encoder are the reference"),
+    "C11": ("4/C11", "connection-phase monitor: greeting parsed by two independent parsers, after_authentication event compared, reply and run_on outcome judged",
+            "Handshake responses in the 4.1 and 3.20 layouts, capability masks (single bit / all / random / none), user names (empty, 1 byte, every non-NUL byte, non-UTF-8, 10000 bytes), arbitrary trailing bytes, any handshake sequence id, TLS offered or not, shim accepting or rejecting, 0-5 commands pipelined behind the handshake, chopped or in one read; TLS requested but not offered is refused before after_authentication.",
+            "greeting contents other than protocol 10, PROTOCOL_41, the SSL bit and parseability are free"),
+    "C18": ("4/C18", "real rustls client hosted inside the transport (TLS's own transcript/record integrity is the byte-exactness oracle) + TLS record parser + canary scan + differential against the plaintext run; valgrind memcheck and ASan passes",
+            "First-read cut at every offset 0..(36+|ClientHello|+10), later read sizes {1,2,3,5,16,64,random,inf}, write limits {inf,1000,1}, TLS 1.2/1.3, with/without client certificate (optional/required/none), 0-10 commands incl. PREPARE/EXECUTE with rows; user name and certificate chain at after_authentication, every post-greeting server byte a TLS record, no canary in clear, decoded responses and callbacks equal to the plaintext run; TLS requested from a shim without TLS is refused before after_authentication.",
+            "replays reproduce schedules, not bytes (fresh TLS randomness); cannot run under Miri"),
+    "C19": ("4/C19", "fault enumeration: every input-length cut, every transport-operation index (one-off and persistent io::Error), every callback (shim error) over a conversation corpus",
+            "28 conversations (each command kind, multi-packet responses, chained sets, errors, prepare/execute/long data, 100 KiB row with short writes, lock-step client, 3.20 handshake, rejected login), each run fault-free to learn B and N, then every k in 0..=B as end-of-stream, every operation index as one-off and as persistent error, and every callback returning the shim's own error: run_on's result (Ok exactly on command boundaries / after QUIT), absence of panics and of callbacks after the fault are judged. Thorough adds random conversations with random faults and cuts between the fragments of a 16 MiB command.",
+            "plaintext only; error kinds BrokenPipe/ConnectionReset/Other (never Interrupted/WouldBlock, which write_all legitimately retries)"),
+    "C20": ("4/C20", "panic hook + catch_unwind + operation budgets over exhaustive short inputs, grammar-aware mutations and random bytes; ASan + Miri passes",
+            "All command payloads of length <=3 over a 14-symbol alphabet (with and without a prepared statement), all raw streams of <=4 bytes over a 6-symbol alphabet instead of the handshake, ~8500 grammar-aware mutations x 2 read schedules (truncation/extension at every byte, every command byte, every type code x flag, count/bitmap/type-table/value inconsistencies, every sequence id, zero-length packets, both handshake layouts cut at every byte, SSLRequest followed by garbage/truncated ClientHello/plaintext), out-of-order fragment ids, random bytes; a panic in msql-srv, a wedge or ill-framed output is a violation.",
+            "'never loops forever' is decided as bounded progress (operation budget); known panic sites are listed in known_findings.json by exact signature"),
 }
 
 PENDING = {
